@@ -656,17 +656,22 @@ func (l *Lexer) skipSpaces() {
 func (l *Lexer) skipComment(noPanic bool) bool {
 	r, _ := utf8.DecodeRuneInString(l.Buffer[l.pos:])
 	switch {
-	case r == '#' || r == '/' && l.peekIs(1, '/') || r == '-' && l.peekIs(1, '-'):
-		return l.skipCommentUntil("\n", false, noPanic)
+	case r == '#':
+		return l.skipCommentUntil(1, "\n", false, noPanic)
+	case r == '/' && l.peekIs(1, '/') || r == '-' && l.peekIs(1, '-'):
+		return l.skipCommentUntil(2, "\n", false, noPanic)
 	case r == '/' && l.peekIs(1, '*'):
-		return l.skipCommentUntil("*/", true, noPanic)
+		return l.skipCommentUntil(2, "*/", true, noPanic)
 	default:
 		return false
 	}
 }
 
-func (l *Lexer) skipCommentUntil(end string, mustEnd bool, noPanic bool) bool {
+// skipCommentUntil skips a comment whose opening marker is open bytes long.
+// The terminator is searched after the opening marker, so that "/*/" is not a complete comment.
+func (l *Lexer) skipCommentUntil(open int, end string, mustEnd bool, noPanic bool) bool {
 	pos := token.Pos(l.pos)
+	l.skipN(open)
 	for !l.eof() {
 		if l.slice(0, len(end)) == end {
 			l.skipN(len(end))
